@@ -1,0 +1,14 @@
+//go:build verif
+
+package safeops
+
+import "sync/atomic"
+
+// LockCountC26 returns the system-lock counter (LockSystem minus UnlockSystem). Verification only.
+func LockCountC26(s Safeops) int32 {
+	g, ok := s.(*safeops)
+	if !ok {
+		return -1 << 30
+	}
+	return atomic.LoadInt32(&g.isLocked)
+}
